@@ -48,6 +48,7 @@ var pipeline bool   // C16 mode: coalescers + snapshot on, observe emitted (log)
 var scratchDir string
 
 type run struct {
+	upd    int
 	logPos int
 	n     *quiet.Node
 	net   *quiet.Net
@@ -335,6 +336,12 @@ func (r *run) step(st h.Step) map[string]interface{} {
 	case "mlleave":
 		x := st.Int("x")
 		r.n.Ev.NotifyLeave(r.n.MLNode(r.names[x], r.trs[x], nil))
+		q = r.n.Drain()
+	case "mlupdate":
+		x := st.Int("x")
+		r.upd++
+		meta := []byte(fmt.Sprintf("role-%d", r.upd)) // protocol < 3 style meta: decoded as the role tag
+		r.n.Ev.NotifyUpdate(r.n.MLNode(r.names[x], r.trs[x], meta))
 		q = r.n.Drain()
 	case "msg":
 		name := r.names[st.Int("x")]
